@@ -29,8 +29,8 @@ ASSUMPTIONS = [
     "ContinuousDiscretizer takes an optional, unused y and does not route through the target validation: target malformations are not asserted against it",
     "single-step discretizers are only given the malformations their own code path validates",
 ]
-BUDGET = {"quick": 900, "thorough": 10000}
-DEADLINE_S = {"quick": 220, "thorough": 2700}
+BUDGET = {"quick": 900, "thorough": 30000}
+DEADLINE_S = {"quick": 220, "thorough": 3300}
 CLASSES = CARVERS + PIPELINES + CARVERS + PIPELINES + ("CategoricalDiscretizer", "OrdinalDiscretizer", "StringDiscretizer")
 
 KINDS = [
